@@ -28,7 +28,8 @@ HelpText == <<<<"Use", "it", "wisely", "and", "often,", "see", LongWord>>, <<>>,
 Arg(n, req, multi, hasDesc, desc, dflt) ==
   [name |-> n, req |-> req, multi |-> multi, hasDesc |-> hasDesc, desc |-> desc, dflt |-> dflt]
 Opt(long, short, ps, val, multi, hasDesc, desc, dflt) ==
-  [long |-> long, short |-> short, ps |-> ps, val |-> val, multi |-> multi, hasDesc |-> hasDesc, desc |-> desc, dflt |-> dflt]
+  [long |-> long, short |-> short, ps |-> ps, val |-> val, multi |-> multi, hasDesc |-> hasDesc, desc |-> desc, dflt |-> dflt,
+   vn |-> "..."]
 
 ASrc == Arg("src", TRUE, FALSE, TRUE, Short, None)
 ADst == Arg("dst", FALSE, FALSE, FALSE, None, None)                       \* no description
@@ -41,7 +42,8 @@ AMore == Arg("more", FALSE, TRUE, TRUE, Long, None)
 
 OForce == Opt("force", "f", TRUE, "no", FALSE, TRUE, Short, None)
 ODry == Opt("dry", "", FALSE, "no", FALSE, FALSE, None, None)              \* long name only, no description
-OOut == Opt("out", "o", FALSE, "req", FALSE, TRUE, Long, <<"\"x.txt\"">>)  \* long name preferred although a short one exists
+OOut == [Opt("out", "o", FALSE, "req", FALSE, TRUE, Long, <<"\"x.txt\"">>)  \* long name preferred although a short one exists;
+         EXCEPT !.vn = "file"]                                                  \* a value name of its own
 OLevel == Opt("level", "l", TRUE, "opt", FALSE, TRUE, Short, <<"2">>)
 OTag == Opt("tag", "", FALSE, "req", TRUE, TRUE, Short, <<"[\"a\",", "\"b\"]">>)
 ORate == Opt("rate", "", FALSE, "req", FALSE, FALSE, None, <<"1.5">>)      \* no description, but a default
@@ -50,11 +52,14 @@ OSize == Opt("size", "s", TRUE, "req", TRUE, FALSE, None, None)
 OHelp == Opt("help", "h", TRUE, "no", FALSE, TRUE, <<"Display", "this", "help", "message">>, None)
 OConf == Opt("conf", "c", TRUE, "req", FALSE, TRUE, Short, <<"\"app.ini\"">>)
 OVerb == Opt("verbose", "", FALSE, "opt", FALSE, FALSE, None, None)
+OThird == Opt("third", "t", TRUE, "no", FALSE, TRUE, Short, None)
+OFast == Opt("fast", "", FALSE, "req", FALSE, FALSE, None, <<"7">>)
+OEmpty == [Opt("empty", "e", TRUE, "opt", FALSE, TRUE, None, None) EXCEPT !.vn = "n"]  \* description "" (not None), 1-letter value name
 
 ArgLists == [none |-> <<>>, req |-> <<ASrc>>, nodesc |-> <<ADst>>, reqdfl |-> <<ASrc, AMode>>, dflmul |-> <<AMode, ARest>>,
              three |-> <<ASrc, ADst, ARest>>, nodescdfl |-> <<ALvl>>, long |-> <<AMode>>]
 SubArgLists == [none |-> <<>>, req |-> <<AItem>>, nodescdfl |-> <<AExtra>>, reqmul |-> <<AItem, AMore>>, mul |-> <<AMore>>]
-OptLists == [none |-> <<>>, flag |-> <<OForce>>, two |-> <<ODry, OOut>>, optmul |-> <<OLevel, OTag>>, nodescdfl |-> <<ORate>>,
+OptLists == [none |-> <<>>, flag |-> <<OForce>>, two |-> <<ODry, OOut>>, optmul |-> <<OLevel, OTag>>, nodescdfl |-> <<ORate, OEmpty>>,
              three |-> <<OForce, OOut, OTag>>]
 SubOptLists == [none |-> <<>>, flag |-> <<OKeep>>, multi |-> <<OSize, OKeep>>]
 GlobLists == [slim |-> <<OHelp>>, conf |-> <<OHelp, OConf>>, nodesc |-> <<OHelp, OVerb>>]
@@ -88,23 +93,34 @@ Shapes(a, o) ==
    hiddendflt |-> <<Sub("bar", 1, <<>>, TRUE, TRUE, TRUE, FALSE, Short, <<>>, a, o),
                     Sub("baz", 2, <<>>, FALSE, TRUE, FALSE, FALSE, Short, <<>>, <<>>, <<>>)>>,
    twodflt |-> <<Sub("bar", 1, <<>>, FALSE, TRUE, TRUE, FALSE, Short, <<>>, a, o),
-                 Sub("baz", 2, <<>>, FALSE, TRUE, TRUE, FALSE, Short, <<>>, <<>>, <<>>)>>]
+                 Sub("baz", 2, <<>>, FALSE, TRUE, TRUE, FALSE, Short, <<>>, <<>>, <<>>)>>,
+   \* three levels: below bar a hidden command (baz, alias bz) and a command named like its parent (bar); baz itself disabled
+   deep |-> <<[Sub("bar", 1, <<>>, FALSE, TRUE, FALSE, FALSE, Short, <<>>, a, o)
+               EXCEPT !.subs = <<Sub("baz", 2, <<"bz">>, TRUE, TRUE, FALSE, FALSE, Short, <<>>, <<>>, <<OThird>>),
+                                 Sub("bar", 1, <<>>, FALSE, TRUE, FALSE, FALSE, None, <<>>, <<>>, <<OFast>>)>>],
+              Sub("baz", 2, <<>>, FALSE, FALSE, FALSE, FALSE, Short, <<>>, <<>>, <<>>)>>]
 
 \* variants of foo itself: [aliases, hidden, description, help]
-Foos == [plain |-> [al |-> <<>>, hid |-> FALSE, desc |-> Short, help |-> <<>>],
-         alias |-> [al |-> <<"fx", "f2">>, hid |-> FALSE, desc |-> Long, help |-> HelpText],
-         hidden |-> [al |-> <<"fx">>, hid |-> TRUE, desc |-> None, help |-> <<>>]]
+\*                    ... and how the application joins the words of its descriptions [nl, gw, tnl]
+Foos == [plain |-> [al |-> <<>>, hid |-> FALSE, desc |-> Short, help |-> <<>>, nl |-> 0, gw |-> 1, tnl |-> FALSE],
+         alias |-> [al |-> <<"fx", "f2">>, hid |-> FALSE, desc |-> Long, help |-> HelpText, nl |-> 2, gw |-> 2, tnl |-> TRUE],
+         hidden |-> [al |-> <<"fx">>, hid |-> TRUE, desc |-> None, help |-> <<>>, nl |-> 3, gw |-> 1, tnl |-> TRUE]]
 
 Quxes == [none |-> <<>>,
           plain |-> <<Cmd("qux", 5, <<>>, FALSE, TRUE, FALSE, FALSE, None, <<>>, <<>>, <<>>, <<>>)>>,
           hidden |-> <<Cmd("qux", 5, <<"qx">>, TRUE, TRUE, FALSE, FALSE, Short, <<>>, <<ADst>>, <<>>, <<>>)>>,
           disabled |-> <<Cmd("qux", 5, <<"qx">>, FALSE, FALSE, FALSE, FALSE, Short, <<>>, <<>>, <<>>, <<>>)>>,
-          anon |-> <<Cmd("qux", 5, <<>>, FALSE, TRUE, TRUE, TRUE, Short, <<>>, <<>>, <<OKeep>>, <<>>)>>]
+          anon |-> <<Cmd("qux", 5, <<>>, FALSE, TRUE, TRUE, TRUE, Short, <<>>, <<>>, <<OKeep>>, <<>>)>>,
+          \* leaf names shared with foo's tree: qux bar (another command than foo bar) and qux qux
+          twin |-> <<Cmd("qux", 5, <<>>, FALSE, TRUE, FALSE, FALSE, Short, <<>>, <<>>, <<>>,
+                         <<Sub("bar", 1, <<>>, FALSE, TRUE, FALSE, FALSE, Long, <<>>, <<ADst>>, <<OThird>>),
+                           Sub("qux", 5, <<>>, FALSE, TRUE, FALSE, FALSE, None, <<>>, <<>>, <<OFast>>)>>)>>]
 
 MkCfg(shape, qux, fa, fo, sa, so, gl, foo) ==
   LET f == Foos[foo]
   IN [app |-> "app", display |-> <<"App">>, ver |-> IF gl = "slim" THEN "1.0" ELSE "",
       help |-> IF qux = "plain" THEN HelpText ELSE <<>>,
+      gargs |-> <<>>, nl |-> f.nl, gw |-> f.gw, tnl |-> f.tnl,
       gopts |-> GlobLists[gl],
       cmds |-> <<HelpCmd,
                  Cmd("foo", 3, f.al, f.hid, TRUE, FALSE, FALSE, f.desc, f.help, ArgLists[fa], OptLists[fo],
